@@ -1,10 +1,12 @@
 import Driver.Reach
 import Driver.Conn
 import Driver.Json
+import Driver.Txt
 
 def main (args : List String) : IO UInt32 := do
   match args with
   | "reach" :: rest => Driver.reachMain rest
+  | ["txtqr"] => Driver.Txt.txtMain
   | ["json"] => Driver.Json.jsonMain
   | ["conn"] => Driver.Conn.connMain
   | ["connpred"] => Driver.Conn.predMain
